@@ -175,6 +175,60 @@ def validate_random(v, recs, wd):
   return acc
 
 
+import abc as _abc
+
+
+class _AbstractLayer(_abc.ABC):
+  def __init__(self, s1=0, s2=0, s3=0):
+    self.args = (s1, s2, s3)
+
+
+class _Dense(_AbstractLayer):
+  pass
+
+
+def scenarios():
+  """set() whose payload matches the selection or detaches selected nodes; class hierarchies with a
+  metaclass."""
+  from fiddle import selectors as sel  # pylint: disable=g-import-not-at-top
+  out = []
+  def probe(name, fn):
+    try:
+      r = fn()
+    except Exception as e:  # pylint: disable=broad-except
+      out.append(({'clause': 'scenario', 'scenario': name, 'observed': 'raise:' + type(e).__name__},
+                  f'{name}: {type(e).__name__}: {str(e)[:200]}'))
+      return
+    if r is not True:
+      out.append(({'clause': 'scenario', 'scenario': name, 'observed': 'wrong'}, f'{name}: {r}'))
+  def s_payload_matches():
+    # every node selected before the call gets the value; the payload itself is not edited
+    inner = fdl.Config(H.ClsA, s1=1)
+    root = fdl.Config(H.f1, s1=fdl.Config(H.ClsA, s1=inner), s2=[inner])
+    payload = fdl.Config(H.ClsB, s1=9)            # ClsB is a subclass of ClsA: it matches too
+    before = [n for n in sel.select(root, H.ClsA)]
+    sel.select(root, H.ClsA).set(s3=payload)
+    ok = all(n.s3 is payload for n in before) and 's3' not in payload.__arguments__ and len(before) == 2
+    return ok or f'selected {len(before)}; s3 set on {[n.s3 is payload for n in before]}; payload {payload.__arguments__}'
+  def s_detaching_assignment():
+    leaf = fdl.Config(H.ClsA, s1=1)
+    mid = fdl.Config(H.ClsA, s1=leaf, s2=2)
+    root = fdl.Config(H.f1, s1=mid)
+    before = list(sel.select(root, H.ClsA))
+    sel.select(root, H.ClsA).set(s1=None, s2=7)     # overwrites the argument that holds a nested match
+    return all(n.s2 == 7 and n.s1 is None for n in before) or f'{[(n.s1, n.s2) for n in before]}'
+  def s_metaclass_hierarchy():
+    root = fdl.Config(H.f1, s1=fdl.Config(_Dense, s1=1), s2=[fdl.Config(_AbstractLayer, s1=2)])
+    got = sorted(n.s1 for n in sel.select(root, _AbstractLayer))
+    exact = sorted(n.s1 for n in sel.select(root, _AbstractLayer, match_subclasses=False))
+    sel.select(root, _AbstractLayer).set(s2=5)
+    return (got == [1, 2] and exact == [2] and root.s1.s2 == 5 and root.s2[0].s2 == 5) or f'{got} / {exact}'
+  probe('set-payload-matches-selection', s_payload_matches)
+  probe('set-detaches-nested-matches', s_detaching_assignment)
+  probe('metaclass-hierarchy', s_metaclass_hierarchy)
+  return out
+
+
 def main():
   v = common.Verdict(PROP, 'model_checking')
   quick = common.tier() == 'quick'
@@ -216,6 +270,8 @@ def main():
       if validate_random(vneg, [dict(cand, tid=1, post=cand['heap'])], os.path.join(wd, 'neg')):
         raise common.MachineryError('Trace_C15 accepted a set() that changed nothing')
     accepted = validate_random(v, recs, os.path.join(wd, 'c2s'))
+    for f, msg in scenarios():
+      v.mismatch(f, {'message': msg})
   v.coverage.update({
       'states': res.distinct, 'transitions': res.generated,
       'traces_validated_against_impl': totals['lines'] + len(recs),
